@@ -46,7 +46,7 @@ TSpec == TInit /\ [][TNext]_tvars
 
 Clauses == <<
   <<"PrefixOk", PrefixOk>>,
-  <<"CompleteAtEnd", eof => delivered = Expected(S) /\ notified = ExpectedNotifs(S)>>,
+  <<"CompleteAtEnd", eof => delivered = Expected(S) /\ (Len(ExpectedNotifs(S)) <= NotifyBuffer => notified = ExpectedNotifs(S))>>,
   <<"ChunkIndependent", delivered = Keep(LinesIn(S, 1, 0, pos), S.wf)>>
 >>
 Judge ==
